@@ -486,9 +486,12 @@ impl Debugger {
             .collect();
 
         if !current_tids.is_empty() {
-            current_tids
-                .iter()
-                .try_for_each(|tid| sys::ptrace::detach(*tid, None).map_err(Ptrace))?;
+            // a signal that stopped a thread and was not passed to it yet goes with the detach,
+            // otherwise the released process never receives it
+            for tid in &current_tids {
+                let pending_signal = self.debugee.tracer_mut().take_pending_signal(*tid);
+                sys::ptrace::detach(*tid, pending_signal).map_err(Ptrace)?;
+            }
 
             signal::kill(self.debugee.tracee_ctl().proc_pid(), Signal::SIGCONT)
                 .map_err(|e| Syscall("kill", e))?;
